@@ -314,6 +314,44 @@ func runC10(r *core.Run) {
 						fail("constructor-layout", out, in)
 					}
 				}
+				// edits through the exported fields after the value has been serialised once: the block must follow the
+				// CURRENT keys and padding (copy-and-edit as the library's own wrappers do, and in place)
+				if fill == 0 && e3 == nil && e4 == nil {
+					for _, how := range []string{"copy", "in-place"} {
+						fresh, _, err := keys_and_cert.ReadKeysAndCert(append([]byte(nil), in...))
+						if err != nil || fresh == nil {
+							continue
+						}
+						if _, err := fresh.Bytes(); err != nil {
+							continue
+						}
+						target := fresh
+						if how == "copy" {
+							cp := *fresh
+							target = &cp
+						}
+						nc := refmodel.Fill("crypto2", uint64(sig*16+cr), cl)
+						ns := refmodel.Fill("sign2", uint64(sig*16+cr), si.PubLen)
+						np := refmodel.Fill("pad3", uint64(sig*16+cr), 384-cl-si.PubLen)
+						if sig == 0 {
+							ns = k.Signing // a DSA key must be in range: keep it
+						}
+						npk, e5 := adapt.CryptoPub(cr, nc)
+						nsk, e6 := adapt.SigningPub(sig, ns)
+						if e5 != nil || e6 != nil {
+							continue
+						}
+						r.Evaluations.Add(1)
+						target.ReceivingPublic, target.SigningPublic, target.Padding = npk, nsk, np
+						out, err := target.Bytes()
+						if err != nil || len(out) < 384 {
+							continue
+						}
+						if !bytes.Equal(out[:cl], nc) || !bytes.Equal(out[384-si.PubLen:384], ns) || !bytes.Equal(out[cl:384-si.PubLen], np) {
+							r.Violate("C10|layout|block-does-not-follow-the-current-fields|"+id, fmt.Sprintf("%s: after the value had been serialised once, its keys and padding were replaced (%s) by others of the same lengths: the block of the next serialisation does not hold the current encryption key at its start, the current signing key at its end and the current padding between", id, how), core.Case{Kind: "sweep", Args: map[string]string{"pair": id, "how": how}})
+						}
+					}
+				}
 				// padding of every length 0..400 handed to the constructor: whatever it accepts must store, as the value's
 				// padding, exactly the bytes that end up between the two keys of the 384-byte block
 				if fill == 0 && e3 == nil && e4 == nil {
